@@ -709,6 +709,9 @@ class DatasetProcessor:
                 for k, v in tsc.stats_dict.items():
                     transcript_stat_counter.stats_dict[k] += v
 
+        # merging deletes per-chromosome parts: from here on an interrupted run has to redo this stage
+        clean_locks(chr_ids, dump_filename, reads_processed_lock_file_name)
+
         if not self.args.no_model_construction:
             self.merge_transcript_models(sample.prefix, aggregator, chr_ids, gff_printer)
             logger.info("Transcript model file " + gff_printer.model_fname)
